@@ -39,7 +39,7 @@ func (propC18) Gen(r *Rand) *Plan {
 		if r.Bool(0.4) {
 			p.Scenario = "funccoll"
 		}
-		n := r.Range(3, 30*Scale)
+		n := r.Range(3, 30*r.Size())
 		var ops []Op
 		for i := 0; i < n; i++ {
 			name := r.Pick(c18Names)
@@ -72,7 +72,7 @@ func (propC18) Gen(r *Rand) *Plan {
 		p.Tasks = []TaskPlan{{Ops: ops}}
 	case 2:
 		p.Scenario = "calc"
-		n := r.Range(2, 12*Scale)
+		n := r.Range(2, 12*r.Size())
 		var ops []Op
 		for i := 0; i < n; i++ {
 			switch r.Weighted([]int{6, 2, 3, 2, 1, 5, 2, 2, 1, 3}) {
@@ -102,7 +102,7 @@ func (propC18) Gen(r *Rand) *Plan {
 		p.Tasks = []TaskPlan{{Ops: ops}}
 	default:
 		p.Scenario = "tmpl"
-		n := r.Range(2, 10*Scale)
+		n := r.Range(2, 10*r.Size())
 		var ops []Op
 		for i := 0; i < n; i++ {
 			switch r.Weighted([]int{6, 2, 3, 2, 3}) {
